@@ -66,8 +66,10 @@ def report (s : St) (k : Nat) : List String := Id.run do
       let lm := SSVerif.LogAdd.cfgDec.lm
       let sc : Link → Int := fun l => s.scaled.getD (L.links.idxOf l) 0
       let P : IntParams := { ladd := SSVerif.LogAdd.logAdd lm, lz := lm.zero, sc := sc }
-      let al := alphaInt P L
-      let be := betaInt P L
+      let alT := alphaIntT P L
+      let beT := betaIntT P L
+      let al := look (alphaInit P L) alT
+      let be := look (fun _ => P.lz) beT
       let ents := s.endEntries.toList.map fun i => L.links.getD i default
       out := out ++ ["alpha " ++ sepBy " " (L.links.map fun l => toString (al l)),
                      "beta " ++ sepBy " " (L.links.map fun l => toString (be l)),
